@@ -532,7 +532,7 @@ Lemma v_step_tagadd : forall st, inv10 st -> inv10 (stepm st ATagAdd).
 Proof. intros st I. simpl. apply inv10_start_tagging. exact I. Qed.
 
 Lemma v_step_tagdel : forall h st, inv10 st -> inv10 (stepm st (ATagDel h)).
-Proof. intros h st I. simpl. apply (inv10_same st); auto. Qed.
+Proof. intros h st I. simpl. apply inv10_start_tagging. apply (inv10_same st); auto. Qed.
 
 Lemma v_step_tagupd : forall h st, inv10 st -> inv10 (stepm st (ATagUpd h)).
 Proof.
@@ -544,7 +544,8 @@ Lemma v_step_env : forall st a, inv10 st ->
   inv10 (stepm st a).
 Proof.
   intros st a I H. destruct a; try contradiction; simpl; try exact I.
-  - apply inv10_start_converter. exact I.
+  - apply inv10_start_converter. apply inv10_start_tagging. exact I.
+  - apply inv10_start_tagging. exact I.
   - apply (inv10_same st); auto.
   - apply (inv10_same st); auto.
   - apply inv10_start_merge'. apply inv10_start_converter. apply inv10_start_tagging. exact I.
@@ -838,8 +839,10 @@ Proof.
   - destruct (view_of v (views st)) as [[|]|]; auto. destruct rf; auto.
   - destruct (view_of v (views st)); auto.
   - rewrite indexes_start_tagging. exact U.
+  - rewrite indexes_start_tagging. exact U.
   - rewrite indexes_start_converter, indexes_start_tagging. exact U.
-  - rewrite indexes_start_converter. exact U.
+  - rewrite indexes_start_converter, indexes_start_tagging. exact U.
+  - rewrite indexes_start_tagging. exact U.
   - rewrite indexes_start_merge, indexes_start_converter, indexes_start_tagging. exact U.
   - destruct (mjob st) as [[off snap [|] mg]|]; auto.
   - destruct k.
@@ -932,8 +935,10 @@ Proof.
   - destruct (view_of w (views st)) as [[|]|]; auto. rewrite Hrf. auto.
   - destruct (view_of w (views st)) eqn:E; auto. simpl. rewrite view_of_del_other; auto. congruence.
   - rewrite views_start_tagging. exact H.
+  - rewrite views_start_tagging. exact H.
   - rewrite views_start_converter, views_start_tagging. exact H.
-  - rewrite views_start_converter. exact H.
+  - rewrite views_start_converter, views_start_tagging. exact H.
+  - rewrite views_start_tagging. exact H.
   - rewrite views_start_merge, views_start_converter, views_start_tagging. exact H.
   - destruct (mjob st) as [[off snap [|] mg]|]; auto.
   - destruct k.
